@@ -94,6 +94,9 @@ def classify_sink(call: ast.Call, r: Resolver) -> Optional[Sink]:
             t = r.type_of(f.value)
             if t and t.split(".")[-1] in ("Path", "PosixPath") and (m is None or set(m) & WRITE_MODES):
                 return Sink("open-write", call, f.value)
+            # untyped receiver (`def update_code(file_path, new_code): file_path.open(mode="wb")`): a constant write mode says it all
+            if t is None and m is not None and mode is not None and set(m) & WRITE_MODES and len(m) <= 3:
+                return Sink("open-write", call, f.value)
     return None
 
 
